@@ -210,7 +210,8 @@ def run(repo):
         for st_ in stores:
             org |= fa.origins(st_.value)
         shared = org == {('param:' + parent, field)}
-        if not shared and not any(o[0] in ('fresh',) or o[0].startswith(('param:', 'call:')) for o in org):
+        if not shared and not any(o[0] == 'fresh' for o in org):
+            # only a value that is certainly a new object (a copy, an array built here) is evidence of un-sharing
             raise AnalysisError('lp.DecVarSub.__init__: origin of self.%s (%s) not interpreted' % (field, sorted(org)))
         res.inst({'slice shares with parent': field, 'origins': sorted('.'.join(map(str, o)) for o in org),
                   'ok': shared}, shared)
